@@ -1,3 +1,235 @@
+/-
+  Helper lemmas for C18 (TamocV/Props/C18.lean): list/table round trips, the name-by-name
+  read-back of the particle table from each model's file, the user-composition fold.
+-/
 import TamocV.Model.SaveLoad
+import Mathlib.Data.List.Basic
+import Mathlib.Data.List.Nodup
+set_option linter.unusedSimpArgs false
+set_option linter.unusedVariables false
+set_option linter.unusedSectionVars false
 namespace TamocV.Lemmas.C18
+open TamocV.Model.SaveLoad
+variable {α β γ : Type}
+
+theorem at1_map (l : List γ) (g : γ → Cell β) (i : Nat) : at1 (l.map g) i = (l[i]?).bind g := by
+  unfold at1
+  rw [List.getElem?_map]
+  cases l[i]? <;> simp
+
+theorem at1_map_some (l : List γ) (g : γ → β) (i : Nat) (h : i < l.length) :
+    at1 (l.map fun p => some (g p)) i = some (g l[i]) := by
+  rw [at1_map, List.getElem?_eq_getElem h]; rfl
+
+theorem at1_singleton (x : Cell β) : at1 [x] 0 = x := by simp [at1]
+
+theorem at2_tabulate2 (nr nc : Nat) (g : Nat → Nat → Cell β) (r c : Nat) (hr : r < nr) (hc : c < nc) :
+    at2 (tabulate2 nr nc g) r c = g r c := by
+  unfold at2 tabulate2
+  simp [hr, hc]
+
+theorem range_map_getD (l : List β) (n : Nat) (d : β) (h : l.length = n) :
+    (List.range n).map (fun k => l.getD k d) = l := by
+  subst h
+  apply List.ext_getElem
+  · simp
+  · intro i h1 h2
+    simp at h1
+    simp [List.getD, h1]
+
+/-- a table given element-wise by the entries of a rectangular list of rows is that list -/
+theorem tabulate2_eq (y : List (List β)) (nr nc : Nat) (g : Nat → Nat → β)
+    (hr : y.length = nr) (hc : ∀ row ∈ y, row.length = nc)
+    (hg : ∀ r c (h : r < y.length) (h2 : c < y[r].length), g r c = y[r][c]) :
+    tabulate2 nr nc g = y := by
+  subst hr
+  unfold tabulate2
+  apply List.ext_getElem
+  · simp
+  · intro r h1 h2
+    have hrow : y[r].length = nc := hc _ (List.getElem_mem h2)
+    simp only [List.getElem_map, List.getElem_range]
+    apply List.ext_getElem
+    · simp [hrow]
+    · intro c h3 h4
+      simp only [List.getElem_map, List.getElem_range]
+      exact hg r c h2 h4
+
+theorem at1_map_get (l : List γ) (g : γ → Cell β) (i : Nat) (h : i < l.length) :
+    at1 (l.map g) i = g l[i] := by
+  unfold at1
+  rw [List.getElem?_map, List.getElem?_eq_getElem h]; rfl
+
+theorem findUser_nodup [Num α] (ud : List (UserChem α)) (hn : (ud.map (·.name)).Nodup)
+    (j : Nat) (h : j < ud.length) : findUser ud (ud[j].name) = some ud[j] := by
+  induction ud generalizing j with
+  | nil => simp at h
+  | cons u us ih =>
+    simp only [List.map_cons, List.nodup_cons] at hn
+    cases j with
+    | zero => simp [findUser, List.find?]
+    | succ j =>
+      have hj : j < us.length := by simpa using h
+      have hne : u.name ≠ us[j].name := by
+        intro he
+        apply hn.1
+        rw [he]
+        exact List.mem_map_of_mem (List.getElem_mem hj)
+      have : (u.name == us[j].name) = false := by simpa using hne
+      simp only [findUser, List.find?, List.getElem_cons_succ, this]
+      exact ih hn.2 j hj
+
+section
+variable [Num α]
+
+/-- invariant of the fold that picks the user composition -/
+theorem userComposition_inv (ucomp : List String) (ps : List (Particle α))
+    (hk : ∀ p ∈ ps, ∀ f, p.dbm = .fluid f → f.user_data = [] ∨ f.user_data.map (·.name) = ucomp) :
+    userComposition ps = (ucomp.length, ucomp) ∨
+      (userComposition ps = (0, []) ∧ ∀ p ∈ ps, ∀ f, p.dbm = .fluid f → f.user_data = []) := by
+  unfold userComposition
+  suffices H : ∀ (acc : Nat × List String), (acc = (ucomp.length, ucomp) ∨ acc = (0, [])) →
+      (ps.foldl (fun acc p => match p.dbm with
+        | .fluid f => if f.user_data.length > acc.1 then (f.user_data.length, f.user_data.map (·.name)) else acc
+        | .insol _ => acc) acc = (ucomp.length, ucomp)) ∨
+      (ps.foldl (fun acc p => match p.dbm with
+        | .fluid f => if f.user_data.length > acc.1 then (f.user_data.length, f.user_data.map (·.name)) else acc
+        | .insol _ => acc) acc = acc ∧ acc = (0, []) ∧ ∀ p ∈ ps, ∀ f, p.dbm = .fluid f → f.user_data = []) by
+    rcases H (0, []) (Or.inr rfl) with h | ⟨h1, _, h3⟩
+    · exact Or.inl h
+    · exact Or.inr ⟨h1, h3⟩
+  induction ps with
+  | nil =>
+    intro acc hacc
+    rcases hacc with h | h
+    · exact Or.inl (by simpa using h)
+    · exact Or.inr ⟨rfl, h, by simp⟩
+  | cons p ps ih =>
+    intro acc hacc
+    have hk' : ∀ q ∈ ps, ∀ f, q.dbm = .fluid f → f.user_data = [] ∨ f.user_data.map (·.name) = ucomp :=
+      fun q hq => hk q (List.mem_cons_of_mem _ hq)
+    simp only [List.foldl_cons]
+    cases hd : p.dbm with
+    | insol i =>
+      simp only
+      rcases ih hk' acc hacc with h | ⟨h1, h2, h3⟩
+      · exact Or.inl h
+      · refine Or.inr ⟨h1, h2, ?_⟩
+        intro q hq f hf
+        rcases List.mem_cons.mp hq with rfl | hq
+        · rw [hd] at hf; cases hf
+        · exact h3 q hq f hf
+    | fluid f =>
+      simp only
+      rcases hk p (List.mem_cons_self) f hd with he | hn
+      · -- no user data: the accumulator is unchanged
+        have : ¬ (f.user_data.length > acc.1) := by simp [he]
+        simp only [this, if_false]
+        rcases ih hk' acc hacc with h | ⟨h1, h2, h3⟩
+        · exact Or.inl h
+        · refine Or.inr ⟨h1, h2, ?_⟩
+          intro q hq g hg
+          rcases List.mem_cons.mp hq with rfl | hq
+          · rw [hd] at hg; cases hg; exact he
+          · exact h3 q hq g hg
+      · have hl : f.user_data.length = ucomp.length := by rw [← hn]; simp
+        rcases hacc with ha | ha
+        · -- accumulator already holds ucomp: same length, not replaced
+          have : ¬ (f.user_data.length > acc.1) := by rw [ha, hl]; simp
+          simp only [this, if_false]
+          rcases ih hk' acc (Or.inl ha) with h | ⟨h1, h2, h3⟩
+          · exact Or.inl h
+          · exact Or.inl (by rw [h1, ha])
+        · by_cases hz : f.user_data.length > acc.1
+          · simp only [hz, if_true]
+            rcases ih hk' (f.user_data.length, f.user_data.map (·.name)) (Or.inl (by rw [hl, hn])) with h | ⟨h1, h2, h3⟩
+            · exact Or.inl h
+            · exact Or.inl (by rw [h1, hl, hn])
+          · simp only [hz, if_false]
+            have h0 : f.user_data = [] := by
+              rw [ha] at hz
+              simpa using hz
+            rcases ih hk' acc (Or.inr ha) with h | ⟨h1, h2, h3⟩
+            · exact Or.inl h
+            · refine Or.inr ⟨h1, h2, ?_⟩
+              intro q hq g hg
+              rcases List.mem_cons.mp hq with rfl | hq
+              · rw [hd] at hg; cases hg; exact h0
+              · exact h3 q hq g hg
+end
+
+section
+variable [Num α]
+structure TableOK (pt : Nat) (t : Table α) : Prop where
+  user_len : t.next_chems > 0 → t.user.length = 13
+  user_nil : t.next_chems = 0 → t.user = [] ∧ t.user_composition = []
+  plume_nil : pt = 0 → t.nb0 = [] ∧ t.lambda_1 = []
+  bent_nil : pt ≠ 2 → t.nbe = [] ∧ t.integrate = [] ∧ t.sim_stored = [] ∧ t.farfield = [] ∧ t.tp = [] ∧
+    t.xp = [] ∧ t.yp = [] ∧ t.zp = [] ∧ t.te = [] ∧ t.xe = [] ∧ t.ye = [] ∧ t.ze = []
+  ta : t.Ta = []
+
+theorem list13 {β : Type} (l : List β) (d : β) (h : l.length = 13) :
+    [l[0]?.getD d, l[1]?.getD d, l[2]?.getD d, l[3]?.getD d, l[4]?.getD d, l[5]?.getD d, l[6]?.getD d, l[7]?.getD d,
+     l[8]?.getD d, l[9]?.getD d, l[10]?.getD d, l[11]?.getD d, l[12]?.getD d] = l := by
+  match l, h with
+  | [a0,a1,a2,a3,a4,a5,a6,a7,a8,a9,a10,a11,a12], _ => rfl
+
+theorem ofFile_sbm (h : Header) (s : Sbm α) (t : Table α) (ok : TableOK 0 t) :
+    Table.ofFile ((header h).add ((sbmOwn s).add (t.toFile 0))) = t := by
+  obtain ⟨ul, un, pn, bn, ta⟩ := ok
+  have pn := pn rfl
+  have bn := bn (by decide)
+  rcases t with ⟨composition, user_composition, nparticles, nchems, next_chems, particle_type, issoluble, isair, isfluid, iscompressible, calc_delta, extern_data, fp_type, rho_p, gamma, beta, co, sigma_correction, delta_groups, m0, T0, K, K_T, fdis, t_hyd, nb0, lambda_1, nbe, integrate, sim_stored, farfield, tp, xp, yp, zp, te, xe, ye, ze, user, Ta⟩
+  simp only at ul un pn bn ta
+  by_cases hn : next_chems > 0
+  · have hu := list13 _ [] (ul hn)
+    obtain ⟨p1, p2⟩ := pn
+    obtain ⟨b1, b2, b3, b4, b5, b6, b7, b8, b9, b10, b11, b12⟩ := bn
+    subst p1 p2 b1 b2 b3 b4 b5 b6 b7 b8 b9 b10 b11 b12 ta
+    simp [Table.ofFile, Table.toFile, File.add, header, sbmOwn, File.i1, File.f1, File.f2, File.f3, File.names,
+      File.dim, List.lookup, vI, vF, vF2, hn, userVars, List.range, List.range.loop, hu]
+  · have h0 : next_chems = 0 := by omega
+    obtain ⟨u1, u2⟩ := un h0
+    obtain ⟨p1, p2⟩ := pn
+    obtain ⟨b1, b2, b3, b4, b5, b6, b7, b8, b9, b10, b11, b12⟩ := bn
+    subst h0 u1 u2 p1 p2 b1 b2 b3 b4 b5 b6 b7 b8 b9 b10 b11 b12 ta
+    simp [Table.ofFile, Table.toFile, File.add, header, sbmOwn, File.i1, File.f1, File.f2, File.f3, File.names,
+      File.dim, List.lookup, vI, vF, vF2]
+end
+
+section
+variable [Num α]
+
+theorem saveSbm_eq (h : Header) (s : Sbm α) (f : File α) (hs : saveSbm h s = some f) :
+    ∃ tbl, saveTable 0 s.composition [s.particle] [s.K_T0] = some tbl ∧
+      f = (header h).add ((sbmOwn s).add (tbl.toFile 0)) := by
+  unfold saveSbm at hs
+  obtain ⟨tbl, h1, h2⟩ := Option.map_eq_some_iff.mp hs
+  exact ⟨tbl, h1, h2.symm⟩
+
+theorem sbm_arrays (h : Header) (s : Sbm α) (f : File α) (hs : saveSbm h s = some f)
+    (hy : ∀ row ∈ s.y, row.length = (s.y.headD []).length) (hlen : s.y.length = s.t.length) :
+    (loadSbm f).t = s.t ∧ (loadSbm f).y = s.y ∧ (loadSbm f).K_T0 = s.K_T0 ∧ (loadSbm f).delta_t = s.delta_t := by
+  obtain ⟨tbl, _, rfl⟩ := saveSbm_eq h s f hs
+  have ht : (List.map valF (List.map some s.t)) = s.t := by
+    rw [List.map_map]; simp [Function.comp_def, valF]
+  refine ⟨?_, ?_, ?_, ?_⟩
+  · simp [loadSbm, sbmOwn, File.f1, File.add, header, vF, vF2, List.lookup, ht]
+  · have hf1 : File.f1 ((header h).add ((sbmOwn s).add (Table.toFile 0 tbl))) "t" = s.t.map some := by
+      simp [sbmOwn, File.f1, File.add, header, vF, vF2, List.lookup]
+    have hf2 : File.f2 ((header h).add ((sbmOwn s).add (Table.toFile 0 tbl))) "y" =
+        tabulate2 s.t.length (s.y.headD []).length fun r c => (s.y[r]?).bind (·[c]?) := by
+      simp [sbmOwn, File.f2, File.add, header, vF, vF2, List.lookup]
+    have hd : File.dim ((header h).add ((sbmOwn s).add (Table.toFile 0 tbl))) "ns" = (s.y.headD []).length := by
+      simp [sbmOwn, File.dim, File.add, header, List.lookup]
+    simp only [loadSbm, hf1, hf2, hd, ht]
+    apply tabulate2_eq _ _ _ _ hlen hy
+    intro r c h1 h2
+    have hc : c < (s.y.headD []).length := by rw [← hy _ (List.getElem_mem h1)]; exact h2
+    rw [at2_tabulate2 _ _ _ _ _ (hlen ▸ h1) hc]
+    simp [h1, h2, valF]
+  · simp [loadSbm, sbmOwn, File.f1, File.add, header, vF, vF2, List.lookup, at1, valF]
+  · simp [loadSbm, sbmOwn, File.f1, File.add, header, vF, vF2, List.lookup, at1, valF]
+end
+
 end TamocV.Lemmas.C18
